@@ -202,6 +202,36 @@ func (m *Machine) opaqueError(tag string) Value {
 	return m.sentinel("error:" + tag)
 }
 
+// trimSpace is strings/bytes.TrimSpace. String domain: exact for ASCII white space (the result
+// is the middle of a decomposition pre ++ r ++ post with pre, post in ws* and r neither starting
+// nor ending with white space; the pieces are functionally determined by s, so stating them on
+// fresh variables is a definition). Algebra domain: uninterpreted and idempotent, on a weak path.
+func (m *Machine) trimSpace(s *Term) *Term {
+	if m.Domain != DomString {
+		m.weak = appendUniq(m.weak, []string{"TrimSpace over opaque bytes"}, 20)
+		r := App("uf.trimSpace", s.S, s)
+		m.assume(Eq(App("uf.trimSpace", s.S, r), r))
+		return r
+	}
+	var ws *Term
+	for _, c := range []string{" ", "\t", "\n", "\v", "\f", "\r"} {
+		t := mk("str.to_re", SRe, StrC(c))
+		if ws == nil {
+			ws = t
+		} else {
+			ws = mk("re.union", SRe, ws, t)
+		}
+	}
+	anything := &Term{Op: "re.all", S: SRe}
+	pre, r, post := m.fresh("trim.pre", SString), m.fresh("trim.mid", SString), m.fresh("trim.post", SString)
+	m.assume(Eq(s, mk("str.++", SString, pre, r, post)))
+	m.assume(mk("str.in_re", SBool, pre, mk("re.*", SRe, ws)))
+	m.assume(mk("str.in_re", SBool, post, mk("re.*", SRe, ws)))
+	m.assume(Not(mk("str.in_re", SBool, r, mk("re.++", SRe, ws, anything))))
+	m.assume(Not(mk("str.in_re", SBool, r, mk("re.++", SRe, anything, ws))))
+	return r
+}
+
 func (m *Machine) builderKey(v Value) string {
 	p, ok := v.(Ptr)
 	if !ok || p.O == nil {
@@ -323,10 +353,23 @@ func init() {
 		if c, ok := m.litValue(s); ok {
 			return m.strLit(strings.TrimSpace(c))
 		}
-		// uninterpreted and idempotent: it may or may not change its argument
-		r := App("uf.trimSpace", s.S, s)
-		m.assume(Eq(App("uf.trimSpace", s.S, r), r))
+		r := m.trimSpace(s)
 		return r
+	})
+	add("bytes.TrimSpace", func(m *Machine, _ *Thread, _ *Frame, a []Value, _ ssa.Value) Value {
+		b, ok := a[0].(ByteSlice)
+		if !ok {
+			panic(m.unsupported("bytes.TrimSpace of %T", a[0]))
+		}
+		if b.Nil {
+			return b
+		}
+		s := m.current(b)
+		if c, ok := m.litValue(s); ok {
+			return ByteSlice{T: m.strLit(strings.TrimSpace(c)), Resliced: true, Buf: b.Buf}
+		}
+		r := m.trimSpace(s)
+		return ByteSlice{T: r, Resliced: true, Buf: b.Buf, Vol: b.Vol, Epoch: b.Epoch}
 	})
 	add("strings.Cut", func(m *Machine, _ *Thread, _ *Frame, a []Value, _ ssa.Value) Value {
 		if v, ok := algebraCutNL(m, str(a[0]), str(a[1])); ok {
